@@ -2,7 +2,7 @@
 // Floats are exchanged as C99 hex-float / "nan" / "inf" strings (strtod), printed with %a.
 // Protocol (one command per line):
 //   CMP <absolute|relative|relabs|mixed> <prec> <prec2> <n> a1 b1 ... an bn        -> R <success> <failed rows | -1>
-//   AREA <none|linear> <prec> <nA> tA.. vA.. <nB> tB.. vB..                          -> R <success> | X <exception>
+//   AREA <none|linear|spline> <prec> <nA> tA.. vA.. <nB> tB.. vB..       -> R <success> <"Area error" of the log (14 digits)> | X <exception>
 //   ANA <eps> <n> v1 fv1 ... vn fvn                                                   -> R <success> | T <index of the throwing check>
 //   REF <eps> <nvalues> ref.. <n> p1 v1 ... pn vn  (reference column read from a file through TextData)
 //   REFF <eps> <formula> <nvalues> ref.. <n> p1 v1 ...   (reference = formula of column $1)
@@ -27,6 +27,7 @@
 #include "TFEL/Check/AreaComparison.hxx"
 #include "TFEL/Check/NoInterpolation.hxx"
 #include "TFEL/Check/LinearInterpolation.hxx"
+#include "TFEL/Check/SplineInterpolation.hxx"
 #include "TFEL/Utilities/TextData.hxx"
 #include "MTest/Evolution.hxx"
 #include "MTest/CurrentState.hxx"
@@ -159,6 +160,8 @@ int main(int argc, char** argv) {
         std::shared_ptr<Interpolation> ip;
         if (it == "linear") {
           ip = std::make_shared<LinearInterpolation>();
+        } else if (it == "spline") {
+          ip = std::make_shared<SplineInterpolation>();
         } else {
           ip = std::make_shared<NoInterpolation>();
         }
@@ -166,7 +169,14 @@ int main(int argc, char** argv) {
         cmp->setParameters(c1, c2, prec, 0., ci, it, false, ci, ip);
         cmp->compare();
         const auto log = cmp->getMsgLog();
-        std::printf("R %d\n", cmp->hasSucceed() ? 1 : 0);
+        const std::string k = "Area error : ";
+        const auto pos = log.find(k);
+        std::string av = "?";
+        if (pos != std::string::npos) {
+          std::istringstream ls(log.substr(pos + k.size()));
+          ls >> av;
+        }
+        std::printf("R %d %s\n", cmp->hasSucceed() ? 1 : 0, av.c_str());
       } else if (cmd == "ANA") {
         const double eps = rd(is);
         std::size_t n;
